@@ -110,6 +110,8 @@ func (x *execCtx) evalSetOp(op string, l, r *relation) (*relation, error) {
 			}
 		}
 		switch {
+		case lt != nil && rt != nil && typesEqual(lt, rt):
+			res.cols[i].typ = lt // identical types (AggregateFunction states included) pass through
 		case lt != nil && rt != nil:
 			st := superType(stateValueType(lt), stateValueType(rt))
 			if st == nil {
@@ -227,14 +229,14 @@ func (f *frame) hasQual(qual string) bool {
 
 // selectCtx is the analysis context of one SELECT.
 type selectCtx struct {
-	x       *execCtx
-	q       *SelectQuery
-	scope   *cteScope
-	frame   *frame
-	quals   map[string]bool // table qualifiers in scope (also for sources with zero columns)
-	aliases map[string]Expr
-	canon   map[canonKey]string
-	hasAggC map[Expr]int8
+	x         *execCtx
+	q         *SelectQuery
+	scope     *cteScope
+	frame     *frame
+	quals     map[string]bool // table qualifiers in scope (also for sources with zero columns)
+	aliases   map[string]Expr
+	canon     map[canonKey]string
+	hasAggC   map[Expr]int8
 	typeCache map[typeKey]*Type
 	// arrayJoinKey is the canonical text of the (single) arrayJoin() argument of this select.
 	arrayJoinKey string
